@@ -109,6 +109,8 @@ class C08(Prop):
                 if k > 200000 and name in ("ternary-cond", "hash", "blocks", "elseif", "calls", "strings"):
                     # (string literals are lexed in quadratic time: slow, but not a crash)
                     continue
+                if k > 20000 and name == "strings":
+                    continue            # 600 KB of string literal takes tens of seconds on a loaded machine: slow is not a crash
                 out.append(case(f(k), "N", "nesting-" + name))
         return out
 
